@@ -9,9 +9,10 @@ the theorems state equality (`∀ k, lookup k a = lookup k b`).
 Full-strength goal (DESIGN §4):   ∀ d ∈ descriptors, d.agree        — and from it, for every kind,
   normal-form round trip (`flat_normal_roundtrip`), stability (`flat_stable`), nothing lost
   (`flat_keeps_field`, `flat_keeps_unknown`), nothing invented (`flat_nothing_invented`).
-What holds of the tree: `all_kinds_agree_partial` (all kinds but `RequestBody`, `OAuthFlow`),
-`all_kinds_agreeW` (those two agree weakly: nothing lost, nothing invented, but not stable when the
-required map is absent — witness `requiredMap_witness`, class RequiredMapAbsent).
+`all_kinds_agree` holds of the tree at full strength since the repairs 901ea22 (RequestBody.content /
+OAuthFlow.scopes: a nil map is written as {}, former class RequiredMapAbsent) and 2f6387f (an empty type list
+is omitted, former class EmptyTypeList); `requiredMap_fixed`, `emptyTypes_fixed` are the regression theorems
+on the former witnesses. Open: DateExampleTrim (`dateTrim_witness`).
 -/
 import KinModel.Lemmas.C03
 import KinModel.Gen.Descriptors
@@ -38,25 +39,25 @@ theorem flat_keeps_unknown (c : TC → Guard → Bool) (d : Desc) (o : Obj) (k :
 /-- Every field the kind defines survives with its value, unless the value is a redundant default or the
     object is a reference. -/
 theorem flat_keeps_field (d : Desc) (o : Obj) (m : MField) (f : Field) (v : JV)
-    (h : structAgreeWith compatW d = true) (hr : refTaken d o = false)
+    (h : structAgreeWith compat d = true) (hr : refTaken d o = false)
     (hm : d.marsh.find? (fun m' => m'.key == m.key) = some m) (hf : fieldByGo d m.goName = some f)
     (hv : lookup f.key o = some v) (hd : isDefault f.tc v = false) :
     lookup m.key (flatRT d o) = some v := by
-  have w := wf_of_agree compatW d h
+  have w := wf_of_agree compat d h
   rw [flatRT_lookup d o m.key w.ext w.unm w.asg w.nodupM, flatSpec_some d o m.key m hr hm]
   obtain ⟨f', hf', _, hc⟩ := w.marshOK m (List.mem_of_find?_eq_some hm)
   rw [hf] at hf'; cases hf'
   have hval : fldVal d o m.goName = v := by
     simp only [fldVal, hf, hv]; exact decode_of_not_default f.tc v hd
   have htc : tcOfGo d m.goName = f.tc := by simp [tcOfGo, hf]
-  simp [hval, htc, compatW_keeps f.tc m.guard v hc hd]
+  simp [hval, htc, compat_keeps f.tc m.guard v hc hd, written_of_not_default f.tc m.guard v hd]
 
 /-- Nothing that was not in the input appears, except the fields the specification requires (written
     unconditionally). -/
 theorem flat_nothing_invented (d : Desc) (o : Obj) (k : String) (v : JV)
-    (h : structAgreeWith compatW d = true) (hv : lookup k (flatRT d o) = some v) :
+    (h : structAgreeWith compat d = true) (hv : lookup k (flatRT d o) = some v) :
     (lookup k o).isSome = true ∨ k ∈ specRequired d.name := by
-  have w := wf_of_agree compatW d h
+  have w := wf_of_agree compat d h
   rw [flatRT_lookup d o k w.ext w.unm w.asg w.nodupM] at hv
   cases hr : refTaken d o with
   | true =>
@@ -93,10 +94,10 @@ theorem flat_nothing_invented (d : Desc) (o : Obj) (k : String) (v : JV)
           have hz : fldVal d o m.goName = zero f.tc := by
             simp [fldVal, hf, hfk, hkm, hl, decode]
           rw [hz, htc] at hg
-          have := compatW_zero f.tc m.guard hc hg
+          have := compat_zero f.tc m.guard hc hg
           rw [← w.required]
           simp only [alwaysKeys, List.mem_map, List.mem_filter]
-          exact ⟨m, ⟨List.mem_of_find?_eq_some hfind, by simp [this]⟩, hkm⟩
+          exact ⟨m, ⟨List.mem_of_find?_eq_some hfind, this⟩, hkm⟩
       · have hg' : guard (tcOfGo d m.goName) m.guard (fldVal d o m.goName) = false := by simpa using hg
         rw [hg'] at hv
         by_cases hc' : k ∈ d.dels
@@ -164,14 +165,15 @@ theorem flat_stable (d : Desc) (o : Obj) (k : String) (h : structAgreeWith compa
       have e2 : fldVal d (flatRT d o) m.goName = decode f.tc (lookup k (flatRT d o)) := by
         simp [fldVal, hf, hfk, hkm]
       have h1 : lookup k (flatRT d o) =
-          if guard f.tc m.guard (decode f.tc (lookup k o)) then some (decode f.tc (lookup k o)) else none := by
+          if guard f.tc m.guard (decode f.tc (lookup k o)) then some (written m.guard (decode f.tc (lookup k o))) else none := by
         rw [L o k, flatSpec_some d o k m hr hfind, htc, e1]; simp [hdel]
       rw [e2, e1, htc, h1]
       simp only [hdel, if_true]
       cases hg : guard f.tc m.guard (decode f.tc (lookup k o)) with
       | true =>
         simp only [if_true]
-        rw [compat_stable f.tc m.guard _ hc hg]; simp [hg]
+        obtain ⟨s1, s2, s3⟩ := compat_stable f.tc m.guard _ hc hg
+        rw [s1, s2, s3]; simp
       | false =>
         have hz := compat_omitted f.tc m.guard _ hc hg
         simp [decode, hz]
@@ -179,9 +181,9 @@ theorem flat_stable (d : Desc) (o : Obj) (k : String) (h : structAgreeWith compa
 /-- A normal-form object (no redundant default, required fields present, nothing next to `$ref`) comes
     back unchanged: every key looks up the same value after the trip, and no key is added. -/
 theorem flat_normal_roundtrip (d : Desc) (o : Obj) (k : String)
-    (h : structAgreeWith compatW d = true) (hn : normalObjB d o = true) :
+    (h : structAgreeWith compat d = true) (hn : normalObjB d o = true) :
     lookup k (flatRT d o) = lookup k o := by
-  have w := wf_of_agree compatW d h
+  have w := wf_of_agree compat d h
   rw [flatRT_lookup d o k w.ext w.unm w.asg w.nodupM]
   simp only [normalObjB, Bool.and_eq_true, List.all_eq_true, Bool.or_eq_true, Bool.not_eq_true',
     beq_iff_eq] at hn
@@ -263,24 +265,24 @@ theorem flat_normal_roundtrip (d : Desc) (o : Obj) (k : String)
       obtain ⟨f, hf, hfk, hc⟩ := w.marshOK m hmem
       have hfm : f ∈ d.fields := List.mem_of_find?_eq_some hf
       have htc : tcOfGo d m.goName = f.tc := by simp [tcOfGo, hf]
-      have hdel : k ∈ d.dels := hkm ▸ marsh_key_in_dels compatW d w m hmem
+      have hdel : k ∈ d.dels := hkm ▸ marsh_key_in_dels compat d w m hmem
       cases hx : lookup k o with
       | some v =>
         have hdv := present f v hfm (by rw [hfk, hkm]; exact hx)
         have hval : fldVal d o m.goName = v := by
           simp only [fldVal, hf, hfk, hkm, hx]; exact decode_of_not_default f.tc v hdv
-        simp [hval, htc, compatW_keeps f.tc m.guard v hc hdv]
+        simp [hval, htc, compat_keeps f.tc m.guard v hc hdv, written_of_not_default f.tc m.guard v hdv]
       | none =>
         have hval : fldVal d o m.goName = zero f.tc := by simp [fldVal, hf, hfk, hkm, hx, decode]
         rw [hval, htc]
         cases hg : guard f.tc m.guard (zero f.tc) with
         | false => simp [hdel]
         | true =>
-          have hal := compatW_zero f.tc m.guard hc hg
+          have hal := compat_zero f.tc m.guard hc hg
           have : k ∈ requiredKeys d := by
             unfold requiredKeys; rw [← w.required]
             simp only [alwaysKeys, List.mem_map, List.mem_filter]
-            exact ⟨m, ⟨hmem, by simp [hal]⟩, hkm⟩
+            exact ⟨m, ⟨hmem, hal⟩, hkm⟩
           have := hreq k this
           simp [hasKey, hx] at this
 
@@ -334,20 +336,11 @@ theorem leaf_kinds :
 /-- the translator read every statement of every marshaller / unmarshaller -/
 theorem no_unrecognised : ∀ d ∈ descriptors, d.unrecognised = [] := by decide
 
-/-- kinds whose required named map is written unconditionally (class RequiredMapAbsent) -/
-def requiredMapKinds : List String := ["openapi3.OAuthFlow", "openapi3.RequestBody"]
-
-/- Full-strength statement (fails on this tree, see `requiredMap_witness`):
-     all_kinds_agree : ∀ d ∈ descriptors, d.agree = true -/
-
 /-- tags = marshal keys = delete list, every write reads the field of its key under a guard that fits the
-    field's type, extension copy / second decode / assignment back / delegation present, reference wrappers
-    and map-like containers are instances of their template — for every kind but the two excluded ones -/
-theorem all_kinds_agree_partial :
-    ∀ d ∈ descriptors, d.name ∉ requiredMapKinds → d.agree = true := by decide
-
-/-- … and the two excluded kinds agree weakly (nothing lost, nothing invented) -/
-theorem all_kinds_agreeW : ∀ d ∈ descriptors, d.agreeW = true := by decide
+    field's type, the unconditional writes are exactly the fields the specification requires, extension copy /
+    second decode / assignment back / delegation present, reference wrappers and map-like containers are
+    instances of their template — for EVERY kind (full strength: no kind is excluded any more) -/
+theorem all_kinds_agree : ∀ d ∈ descriptors, d.agree = true := by decide
 
 /-- kind names are unique, so that `findDesc` finds the row of the kind -/
 theorem kind_names_distinct : (descriptors.map (·.name)).Nodup := by decide
@@ -360,13 +353,22 @@ theorem ref_wrappers_uniform :
 /-! ## witnesses (inside the exclusions the model differs from the spec) and non-vacuity -/
 
 def requestBodyDesc : Desc := (findDesc descriptors "openapi3.RequestBody").getD default
+def oauthFlowDesc : Desc := (findDesc descriptors "openapi3.OAuthFlow").getD default
 
-/-- RequiredMapAbsent: a request body without `content` — first trip writes null, second trip writes {} -/
-theorem requiredMap_witness :
-    let o : Obj := [("description", .str "d")]
-    requestBodyDesc.name ∈ requiredMapKinds ∧
-    (lookup "content" (flatRT requestBodyDesc o)).map JV.isNull = some true ∧
-    (lookup "content" (flatRT requestBodyDesc (flatRT requestBodyDesc o))).map JV.isEmptyObj = some true := by
+/-- F-C03-3 (repaired by 901ea22, former class RequiredMapAbsent): a request body without `content` / an OAuth
+    flow without `scopes` — the first trip writes {} (not null), the second trip writes {} again, and the model
+    agrees with the spec (stable) on the former witness inputs -/
+theorem requiredMap_fixed :
+    (let o : Obj := [("description", .str "d")]
+     (lookup "content" (flatRT requestBodyDesc o)).map JV.isEmptyObj = some true ∧
+     (lookup "content" (flatRT requestBodyDesc (flatRT requestBodyDesc o))).map JV.isEmptyObj = some true ∧
+     (match rt descriptors 8 (.kind "openapi3.RequestBody") (.obj o) with
+      | .ok (.obj [("content", .obj []), ("description", .str "d")]) => true | _ => false) = true ∧
+     (match rt descriptors 8 (.kind "openapi3.RequestBody") (.obj [("content", .obj []), ("description", .str "d")]) with
+      | .ok (.obj [("content", .obj []), ("description", .str "d")]) => true | _ => false) = true) ∧
+    (let o : Obj := [("tokenUrl", .str "u")]
+     (lookup "scopes" (flatRT oauthFlowDesc o)).map JV.isEmptyObj = some true ∧
+     (lookup "scopes" (flatRT oauthFlowDesc (flatRT oauthFlowDesc o))).map JV.isEmptyObj = some true) := by
   decide
 
 def schemaDesc : Desc := (findDesc descriptors "openapi3.Schema").getD default
@@ -378,12 +380,24 @@ theorem dateTrim_witness :
     (match lookup "example" (applyPost schemaDesc o) with | some (.str e) => e == "2020-01-02" | _ => false) = true := by
   decide
 
-/-- EmptyTypeList: `type: []` is written as null, and the reloaded document has no type -/
-theorem emptyTypes_witness :
-    (rt descriptors 8 (.kind "openapi3.Schema") (.obj [("type", .arr [])])).toOption.map
-        (fun v => match v with | .obj [("type", .null)] => true | _ => false) = some true ∧
-    (rt descriptors 8 (.kind "openapi3.Schema") (.obj [("type", .null)])).toOption.map
-        (fun v => match v with | .obj [] => true | _ => false) = some true := by
+/-- F-C03-4 (repaired by 2f6387f, former class EmptyTypeList): `type: []` is omitted by the three marshallers
+    that hold a `*Types` (v3 schema, v2 schema, v2 parameter), so the first serialisation is already the stable
+    one; the model agrees with the spec on the former witness inputs -/
+theorem emptyTypes_fixed :
+    (match rt descriptors 8 (.kind "openapi3.Schema") (.obj [("type", .arr [])]) with
+     | .ok (.obj []) => true | _ => false) = true ∧
+    (match rt descriptors 8 (.kind "openapi2.Schema") (.obj [("type", .arr [])]) with
+     | .ok (.obj []) => true | _ => false) = true ∧
+    (match rt descriptors 8 (.kind "openapi2.Parameter") (.obj [("name", .str "p"), ("type", .arr [])]) with
+     | .ok (.obj [("name", .str "p")]) => true | _ => false) = true ∧
+    (match rt descriptors 8 (.kind "openapi2.Parameter") (.obj [("name", .str "p")]) with
+     | .ok (.obj [("name", .str "p")]) => true | _ => false) = true := by
+  decide
+
+/-- every field of the table that holds a `*Types` is written under the guard that omits the empty list -/
+theorem types_fields_guarded :
+    ∀ d ∈ descriptors, ∀ f ∈ d.fields, f.shape = .types →
+      f.tc = .ptypes ∧ d.marsh.any (fun m => m.goName == f.goName && m.guard == .neNilLenNe0) = true := by
   decide
 
 /-- F-C03-2 (repaired): no position of any kind turns a null entry into a wrapper whose marshaller
